@@ -260,6 +260,11 @@ def answer? (ctx : Ctx) (H : Hashes) (_stone6 : Bool) (toks : List String) : Opt
     | [mask, coeffs, point, tds, tgen] =>
       pure (out hx (L.evalComposition iev.toList pi (← felts? mask) (← felts? coeffs) (← felt? point) (← felt? tds) (← felt? tgen)))
     | _ => none
+  | "verify_seq" :: layout :: sec :: rest => do
+    -- the model is a pure function: the second verification is `verify` of the second value
+    let (L, _) ← ctx.lay? H layout
+    let p ← parseProof? (rest.drop (rest.length / 2))
+    pure (out (fun ((a, b) : Felt × Felt) => s!"{hx a} {hx b}") (Stark.verify L H _stone6 p (← felt? sec)))
   | "verify" :: layout :: sec :: rest => do
     let (L, _) ← ctx.lay? H layout
     let p ← parseProof? rest
